@@ -31,6 +31,10 @@ type C15Client struct {
 	User    int    `json:"user"`
 	Session uint32 `json:"session"`
 	Browser string `json:"browser"`
+	// LostReply: the connection is reset the moment the server has read the whole
+	// hello, so the server's reply cannot be written; the client then connects
+	// again with the same session id
+	LostReply bool `json:"lost_reply,omitempty"`
 }
 
 type C15Scenario struct {
@@ -39,9 +43,9 @@ type C15Scenario struct {
 	SrvSkewMS int64       `json:"srv_skew_ms"`
 	// BurstDelayS: virtual seconds between the pinned sessions and the burst (an
 	// active user's expiry may pass in between)
-	BurstDelayS int `json:"burst_delay_s"`
-	Partial   bool        `json:"partial"`
-	Seed      uint64      `json:"seed"`
+	BurstDelayS int    `json:"burst_delay_s"`
+	Partial     bool   `json:"partial"`
+	Seed        uint64 `json:"seed"`
 }
 
 func genC15(g *Gen) any {
@@ -78,6 +82,11 @@ func genC15(g *Gen) any {
 	for i := 0; i < n; i++ {
 		p := pairs[g.Rng.IntN(len(pairs))]
 		sc.Clients = append(sc.Clients, C15Client{User: p.u, Session: p.s, Browser: []string{"chrome", "firefox", "safari"}[g.Rng.IntN(3)]})
+	}
+	if g.Bool(0.35) {
+		for k := g.Int(1, 2); k > 0; k-- {
+			sc.Clients[g.Rng.IntN(min(n, 4))].LostReply = true
+		}
 	}
 	return sc
 }
@@ -130,18 +139,43 @@ func runC15(c *Ctx, scAny any) {
 		}
 	})
 	rng := rand.New(rand.NewPCG(sc.Seed, 15))
-	handshake := func(user int, sid uint32, browser string, ip string, res *c15Result) {
-		defer func() { res.done = true }()
+	var handshake func(user int, sid uint32, browser string, ip string, res *c15Result, lostReply bool)
+	handshake = func(user int, sid uint32, browser string, ip string, res *c15Result, lostReply bool) {
+		if !lostReply {
+			defer func() { res.done = true }()
+		}
 		cp := ClientParams{UID: uids[user], Method: "shadowsocks", Encryption: "aes-gcm", Browser: browser, Transport: "direct", NumConn: 1, SessionID: sid, SkewMS: sc.SrvSkewMS}
 		_, remote, auth, err := w.ClientConfig(cp, rng)
 		if err != nil {
 			res.err = err
+			res.done = true
 			return
 		}
 		d := &simnet.Dialer{Net: c.Net, LocalIP: ip}
 		conn, err := d.Dial("tcp", srvAddr)
 		if err != nil {
 			res.err = err
+			res.done = true
+			return
+		}
+		if lostReply {
+			// the hello is written by hand to learn its length; the link breaks once
+			// the server has taken all of it
+			cc := &captureConn{}
+			remote.Transport.CreateTransport().Handshake(cc, auth)
+			if len(cc.w) == 0 {
+				res.err = fmt.Errorf("no hello")
+				res.done = true
+				return
+			}
+			l := conn.(*simnet.Conn).Link()
+			l.Script = append(l.Script, simnet.ScriptedFault{Dir: 0, AtConsumed: int64(len(cc.w[0])), Kind: "reset"})
+			conn.Write(cc.w[0])
+			conn.SetReadDeadline(time.Now().Add(5 * time.Second))
+			conn.Read(make([]byte, 16))
+			conn.Close()
+			c.Probe("reply_lost_then_retry")
+			handshake(user, sid, browser, ip, res, false)
 			return
 		}
 		res.conn = conn
@@ -186,7 +220,7 @@ func runC15(c *Ctx, scAny any) {
 			pinned[u] = &c15Result{}
 			np++
 			u := u
-			simsync.Go("h:pinned", func() { handshake(u, 0x50000000+uint32(u), "firefox", "10.0.3.1", pinned[u]) })
+			simsync.Go("h:pinned", func() { handshake(u, 0x50000000+uint32(u), "firefox", "10.0.3.1", pinned[u], false) })
 		}
 	}
 	c.Drive(func() bool {
@@ -237,7 +271,9 @@ func runC15(c *Ctx, scAny any) {
 	for i, cl := range sc.Clients {
 		i, cl := i, cl
 		results[i] = &c15Result{}
-		simsync.Go("h:client", func() { handshake(cl.User, cl.Session, cl.Browser, fmt.Sprintf("10.0.2.%d", i+1), results[i]) })
+		simsync.Go("h:client", func() {
+			handshake(cl.User, cl.Session, cl.Browser, fmt.Sprintf("10.0.2.%d", i+1), results[i], cl.LostReply)
+		})
 	}
 	end := c.Drive(func() bool {
 		for _, r := range results {
